@@ -202,3 +202,8 @@ pub fn width_for(r: &mut Rng, text: &str) -> usize {
         _ => r.range(1, 12),
     }
 }
+
+/// a string whose byte length / display width make `width_for` cluster around the text's
+pub fn display_width_probe(t: &str) -> String {
+    t.to_string()
+}
